@@ -85,6 +85,14 @@ pub(crate) fn extract_variable(
             Expression_::Match(_, cases) => {
                 for (_, block) in cases {
                     if block_contains_id(block, *expr_id) {
+                        // A case written without braces (`None => 0`)
+                        // only has room for one expression.
+                        if block.open_brace == block.close_brace {
+                            return Err(
+                                "Cannot extract a variable inside a match case without braces."
+                                    .to_owned(),
+                            );
+                        }
                         break 'outer;
                     }
                 }
